@@ -115,6 +115,16 @@ theorem genMetaOne_flagInv {a b : Int} {f : Bool × Bool × String × Option Str
   exact ⟨hm.inv, by rw [hm.name]; exact h.name,
     (genMetaOne_flags cfg enc now emit acc name v isCur h.name hv).trans h.flags⟩
 
+theorem genServerName_flagInv {a b : Int} {f : Bool × Bool × String × Option String}
+    (cfg : Cfg) (enc : String → String) (now : Int) (emit : Bool)
+    (acc : Target × List Event) (h : FlagInv a b f acc.1) :
+    FlagInv a b f (genServerName cfg enc now emit acc).1 := by
+  unfold genServerName
+  split
+  · apply genMetaOne_flagInv cfg enc now emit acc _ _ _ h
+    refine ⟨?_, ?_, ?_, ?_⟩ <;> (intro e; exact absurd e (by decide))
+  · exact h
+
 theorem generateMetaUpdates_flags {a b : Int} (cfg : Cfg) (enc : String → String) (now : Int) (emit : Bool)
     (t : Target) (hi : TInvD a b t) (hn : t.name ≠ "") :
     Flags (t.generateMetaUpdates cfg enc now emit).1 = Flags t := by
@@ -166,7 +176,7 @@ theorem generateMetaUpdates_flags {a b : Int} (cfg : Cfg) (enc : String → Stri
         · intro e; subst e; simp at hv; rw [hv]
         · intro e; subst e; simp at hv; exact ⟨v, hv, rfl⟩
       · exact h) strNames _ s2
-  exact s3.flags
+  exact (genServerName_flagInv cfg enc now emit _ s3).flags
 
 theorem updateMeta_flags {a b : Int} (cfg : Cfg) (enc : String → String) (now : Int) (emit : Bool)
     (t : Target) (hi : TInvD a b t) (hn : t.name ≠ "") :
